@@ -79,7 +79,7 @@ def outputOkRequest (f : List String) : String :=
         | .ok a =>
           (match generateModule a with
            | .ok m => "ok outputok=" ++ toString (outputOk a m) ++ " plansok=" ++ toString m.plans.Ok ++
-               " sizeexact=" ++ toString m.plans.SizeExact' ++ " supported=" ++ toString (Supported a) ++ " finite=" ++ toString m.plans.finite
+               " sizeexact=" ++ toString m.plans.SizeExact' ++ " supported=" ++ toString (Supported a) ++ " finite=" ++ toString m.plans.finite ++ " elemssure=" ++ toString m.plans.elemsSure
            | _ => "nogen")
         | _ => "nogen")
      | none => "bad-op")
